@@ -440,8 +440,34 @@ func runC08G[K comparable, V any](c CacheCase, o *vk.Obs, kk keyKit[K], vt valKi
 		}
 		return v, ""
 	}
-	ops := append(append([]COp(nil), c.Ops...), COp{Kind: "clear"})
+	var ops []COp
+	churned := 0
+	for _, op := range c.Ops {
+		if op.Kind != "churn" {
+			ops = append(ops, op)
+			continue
+		}
+		// a marathon: tens of thousands of replacing Puts / Remove+Put pairs on
+		// one or two keys (counters and thresholds that only trip after very
+		// many operations on ONE cache), every step checked like any other
+		if churned++; churned > 1 {
+			continue
+		}
+		n := []int{33000, 40000, 66000, 70000}[op.S%4]
+		for j := 0; j < n; j++ {
+			switch op.S / 4 % 3 {
+			case 0:
+				ops = append(ops, COp{Kind: "put", K: op.K, S: 1})
+			case 1:
+				ops = append(ops, COp{Kind: []string{"remove", "put"}[j%2], K: op.K, S: 1})
+			default:
+				ops = append(ops, COp{Kind: "put", K: op.K + j%2, S: 1 + j%2})
+			}
+		}
+	}
+	ops = append(ops, COp{Kind: "clear"})
 	for i, op := range ops {
+		o.Step() // interleaved execution (vk.Interleave) switches to the other case here
 		op.K = op.K % (c.Limit + 4) // key space scales with the limit so that evictions happen
 		if op.Kind == "putNew" {    // a key that is not present (if any): forces an insertion
 			for j := 0; j < c.Limit+4; j++ {
@@ -620,6 +646,7 @@ func runC08G[K comparable, V any](c CacheCase, o *vk.Obs, kk keyKit[K], vt valKi
 	o.Class("kelem=" + kindName(c.KElem, elem.Int))
 	o.Class("opts=" + kindName(c.Opts, "ES(default)"))
 	o.ClassIf(c.Probe, "has_probes_around_every_step")
+	o.ClassIf(churned > 0, "marathon(>=33000_replacing_puts_or_removals)")
 	o.ClassIf(rePut > 0, "put_of_the_element_already_held")
 	o.ClassIf(eqPut > 0, "put_of_a_new_element_equal_to_the_one_held")
 	if knownHits > 0 {
